@@ -13,7 +13,8 @@ func aggGuardSpec() *guardSpec {
 			"pkg/intermediate.AggregationProcess.expirePriorityQueue": aggMutex,
 			"pkg/intermediate.AggregationProcess.workerList":          aggMutex,
 		},
-		Exempt: map[string]string{},
+		Exempt:       map[string]string{},
+		PointerElems: map[string]bool{"pkg/intermediate.AggregationProcess.flowKeyRecordMap": true},
 	}
 	gs.Extra = func(in ssa.Instruction) []guardedAccess {
 		c := callOf(in)
